@@ -373,10 +373,16 @@ PROPS["C10"] = dict(
           "to 11 calls feeding back (continuation, offset), n in 0..9. Oracle: a reference walk over the generated chain — every call "
           "delivers exactly the next items in order, is cut short only by a broken edge or a 4th consecutive empty page (then exactly "
           "one error item and an empty continuation), the continuation offset matches, exhaustion gives the nil continuation, and each "
-          "call requests at most 4(n+1)+4 remote pages. Non-trivial: >= 2 pages and a call that crosses a page boundary while "
-          "delivering. Distinct = distinct (chain, program)."),
+          "call requests at most 4(n+1)+4 remote pages; what a page says in totalItems (absent, understated, exact, overstated) must not "
+          "change what is delivered. (UIPaging) the UI as the caller that feeds continuations back: worlds with paged outboxes and reply "
+          "collections are scrolled with bursts of moves that are not held back until loads finish, interleaved with keys that change "
+          "the current page while a load is in flight (responses delayed by a per-target jitter); in the settled end state every "
+          "thread page holds at every loaded position the item the world puts there. Non-trivial: >= 2 pages and a call that crosses a "
+          "page boundary while delivering / at least five keys. Distinct = distinct (chain, program) / stimulus."),
     units=[
         rapid("Prop", "TestProp", 8000, 400000, config_toml=_NET + "cache_size = 16\n"),
+        rapid("UIPaging", "TestUIPaging", 240, 8000, shards=(8, 16), config_toml=_NET + "cache_size = 16\n", timeout=dict(quick=600, thorough=3000),
+              retry_confirm=3, trust_unconfirmed=r"holds .* at position"),
     ],
     manifest=dict(
         text=("Stateful property-based testing: generated page chains (in memory and served by the loopback simulator) are paged with "
